@@ -641,7 +641,7 @@ uint64_t bufr_getbits ( BUFR_Message *bufr, int nbbits, int *errcode)
       {
 		char           errmsg[256];
       bufr_print_debug( " " );
-      bufr_print_binary( errmsg, bits, nbbits );
+      bufr_snprint_binary( errmsg, sizeof(errmsg), bits, nbbits );
       bufr_print_debug( errmsg );
       bufr_print_debug( " " );
       }
